@@ -246,8 +246,8 @@ def g_frames(R, tier):
             uncovered.append(modname)
             continue
         for gname, fn in mod.GROUPS.items():
-            if gname.startswith("canary") or gname in getattr(mod, "NO_FRAME_GROUPS", ()):
-                continue
+            if gname.startswith(("canary", "thorough:", "bounded:")) or gname in getattr(mod, "NO_FRAME_GROUPS", ()):
+                continue  # (native stand-ins produce no frame obligations)
             sub = Results("C10", f"frames:{modname.split('.')[-1]}.{gname}")
             try:
                 fn(sub, tier)
@@ -357,10 +357,34 @@ def replay_rng(rp):
     return dict(reproduced=d < n, temporaries=n, distinct=d, program=code)
 
 
+HISTORY_PAIRS = [  # (converted first, converted second): the second must not depend on the first
+    ("limit = 1\nclass A:\n    f = lambda self: limit\n    g = [limit for q in (1,)]\n", "class Box:\n    limit = 2\n    double = limit * 2\nr = Box.double\n"),
+    ("i = 0\nwhile i < 2:\n    i += 1\nimport os\nfor k in range(3):\n    if k:\n        break\n", "x = 1\ny = 2\n"),
+    ("def f(a):\n    def g():\n        return a\n    return g\n", "def f(a):\n    return a\nr = f(1)\n"),
+    ("class K:\n    def m(self):\n        return super().m()\n", "class K:\n    def m(self):\n        return 1\nr = K().m()\n"),
+    ("for i in range(3):\n    if i:\n        continue\n", "for i in range(3):\n    pass\nwhile False:\n    pass\n"),
+]
+
+
+def replay_history_pairs(rp=None):
+    """second conversion after another conversion vs the same conversion in a fresh process"""
+    import json as _j
+    norm = "import re\nnorm=lambda t: re.sub(r'__ol_([a-z]+)_[a-z0-9]+', r'__ol_\\1_N', t)\n"
+    for first, second in HISTORY_PAIRS:
+        code_a = norm + f"import oneliner, random\noneliner.convert_code_string({first!r})\nrandom.seed(1)\nprint(norm(oneliner.convert_code_string({second!r})))\n"
+        code_b = norm + f"import oneliner, random\nrandom.seed(1)\nprint(norm(oneliner.convert_code_string({second!r})))\n"
+        a, ea = _fresh_process(code_a)
+        b, eb = _fresh_process(code_b)
+        if a != b:
+            return dict(reproduced=True, first=first, second=second, after_first=a[:400], fresh=b[:400], stderr=(ea or eb)[:200],
+                        expected="the text of a conversion does not depend on earlier conversions in the process")
+    return dict(reproduced=False, pairs=len(HISTORY_PAIRS))
+
+
 def replay_frame(rp):
     """a write to an object that outlives the call shows up as a dependence on the history of
     the process: try the stored two-conversion histories"""
-    for fn in (replay_history, replay_leak):
+    for fn in (replay_history, replay_history_pairs, replay_leak):
         try:
             rep = fn(rp)
         except Exception as e:  # noqa: BLE001
@@ -396,7 +420,8 @@ def replay_history(rp=None):
     return dict(reproduced=not all(ok), same_after_option_change=ok[0], same_after_other_conversion=ok[1], program=code)
 
 
-REPLAY = {"history": replay_history, "leak": replay_leak, "illegal": replay_illegal, "hashseed": replay_hashseed, "rng": replay_rng, "frame": replay_frame}
+REPLAY = {"history-pairs": replay_history_pairs, "history": replay_history, "leak": replay_leak, "illegal": replay_illegal, "hashseed": replay_hashseed, "rng": replay_rng, "frame": replay_frame}
 
 from suites import thorough as _th
 GROUPS["thorough:history"] = _th.bounded_from_replay("bounded/api-history", replay_history)
+GROUPS["thorough:history-pairs"] = _th.bounded_from_replay("bounded/two-conversion-histories", replay_history_pairs)
